@@ -184,3 +184,12 @@ def fingerprint(r, clauses):
 def sample(r):
     return dict(strings=r['label'], data_bytes=len(r['data']), fallback=r['fallback'], entries=len(r['entries']),
                 first=''.join(chr(c) for c in r['entries'][0]['main']) if r['entries'] else None)
+
+
+def corrupt(r):
+    if r['fallback']:
+        r['data'] = r['data'] + [1] if len(r['data']) < 31 else r['data']
+        r['lines'] = r['lines'][:-1] if r['lines'] else r['lines']
+        return r if r['lines'] else None
+    r['header']['ver'] = r['header']['ver'] + [48]
+    return r
